@@ -527,14 +527,26 @@ def main(prop, argv=None):
     corpus = load_corpus(pid)
     gen = prop.generate(rng, tier)
     changed_src = source_changed(pid)
-    if changed_src and tier == "quick" and not os.environ.get("VERIF_NO_BOOST"):
-        # the anchored code differs from the baseline: triple the quick budget (two more quick batches from
-        # independent PRNG states plus a slice of the thorough tier's larger cases)
-        g2 = prop.generate(random.Random(args.seed * 7919 + 101), "quick")
-        g3 = prop.generate(random.Random(args.seed * 104729 + 7), "thorough")[:len(gen)]
-        gen = gen + g2 + g3
     cases = corpus + gen
+    t_eval = time.time()
     recs = evaluate_cases(prop, cases) if ok else []
+    boosted = 0
+    if ok and changed_src and tier == "quick" and not os.environ.get("VERIF_NO_BOOST"):
+        # the anchored code differs from the baseline: up to triple the quick budget (another quick batch from
+        # an independent PRNG state plus a slice of the thorough tier's larger cases), within a time budget
+        # of about four minutes for the whole evaluation
+        el = max(time.time() - t_eval, 1.0)
+        room = int(len(cases) * max(0.0, 240.0 - el) / el)
+        if room > 0:
+            g2 = prop.generate(random.Random(args.seed * 7919 + 101), "quick")
+            g3 = prop.generate(random.Random(args.seed * 104729 + 7), "thorough")[:len(gen)]
+            extra = []
+            for a, b in zip(g2, g3 + g2):        # interleave so that a short slice holds both kinds
+                extra += [a, b]
+            extra = extra[:min(room, 2 * len(gen))]
+            boosted = len(extra)
+            cases = cases + extra
+            recs = recs + evaluate_cases(prop, extra)
 
     n_nontrivial = set()
     for r in recs:
@@ -620,7 +632,7 @@ def main(prop, argv=None):
             "oracle_failures": n_orc, "known_finding_hits": known_hits,
             "distribution": stats,
             "anchored_source_changed_since_baseline": changed_src,
-            "case_budget": "tripled (anchored source differs from harness/source_baseline.json)" if (changed_src and tier == "quick") else "standard",
+            "case_budget": (f"standard + {boosted} extra cases (anchored source differs from harness/source_baseline.json)" if boosted else "standard"),
         },
         "assumptions": list(getattr(prop, "ASSUMPTIONS", [])),
         "wall_s": round(wall, 2), "violations": len(violations),
